@@ -2,8 +2,21 @@ module verifharness
 
 go 1.23.0
 
-require github.com/a-h/templ v0.0.0
+require (
+	github.com/a-h/parse v0.0.0-20250122154542-74294addb73e
+	github.com/a-h/templ v0.0.0
+	github.com/andybalholm/brotli v1.1.0
+	github.com/fsnotify/fsnotify v1.7.0
+	golang.org/x/net v0.37.0
+)
 
-require github.com/a-h/parse v0.0.0-20250122154542-74294addb73e // indirect
+require (
+	github.com/cenkalti/backoff/v4 v4.3.0 // indirect
+	github.com/cli/browser v1.3.0 // indirect
+	golang.org/x/mod v0.20.0 // indirect
+	golang.org/x/sync v0.10.0 // indirect
+	golang.org/x/sys v0.31.0 // indirect
+	golang.org/x/tools v0.24.0 // indirect
+)
 
 replace github.com/a-h/templ => /repo
